@@ -22,13 +22,22 @@ pub fn h_probe_language_en() {
     reach("probe.language_en");
 }
 
-/// native only: the English function-name table (variant=NAME per line), read by the engine to build the
-/// `Language.functions` value concretely
+/// native only: the language tables (name, code, booleans, errors, function names) of every language the engine
+/// ships, one `code|section|key=value` line each; the engine builds its `Language` values from these
 pub fn h_probe_function_names() {
-    let l = language_en();
-    for f in crate::functions::Function::into_iter() {
-        let line = format!("{:?}={}", f, f.to_localized_name(l));
-        observe_str("fn", &line);
+    for code in ["en", "es", "de", "fr", "it"] {
+        let l = match crate::language::get_language(code) { Ok(l) => l, Err(_) => continue };
+        observe_str("fn", &format!("{code}|meta|name={}", l.name));
+        observe_str("fn", &format!("{code}|meta|code={}", l.code));
+        observe_str("fn", &format!("{code}|booleans|true={}", l.booleans.r#true));
+        observe_str("fn", &format!("{code}|booleans|false={}", l.booleans.r#false));
+        let e = &l.errors;
+        let errs = [("ref", &e.r#ref), ("name", &e.name), ("value", &e.value), ("div", &e.div), ("na", &e.na), ("num", &e.num), ("nimpl", &e.nimpl),
+                    ("spill", &e.spill), ("calc", &e.calc), ("circ", &e.circ), ("error", &e.error), ("null", &e.null)];
+        for (k, v) in errs { observe_str("fn", &format!("{code}|errors|{k}={v}")); }
+        for f in crate::functions::Function::into_iter() {
+            observe_str("fn", &format!("{code}|functions|{:?}={}", f, f.to_localized_name(l)));
+        }
     }
     reach("probe.function_names");
 }
